@@ -7,7 +7,7 @@ LEVEL_TEXT = ("Coq theorems over the SMTP session + Deliver model, for every con
               "the deliveries made equal what the dialogue alone entitles (delivery_exact), only a DATA block answered 250 adds "
               "anything, one message per accepted storable recipient, no other mailbox changes; carried to the abstract store of C07 and "
               "through its two refinement theorems to both back-end models (store_holds_what_dialogue_entitles, "
-              "both_backends_agree_on_deliveries) and to the DISK model of the file store: mail acknowledged with 250 is listed, in order, after any "
+              "both_backends_agree_on_deliveries; with a mailbox cap: deliveries_reach_the_capped_store, capped_store_holds_most_recent_entitled, both_backends_agree_on_capped_deliveries) and to the DISK model of the file store: mail acknowledged with 250 is listed, in order, after any "
               "number of restarts (acknowledged_mail_survives_restart, with C10/C11's filedisk_refines_storespec); tied to the code by a byte-level "
               "correspondence check of whole SMTP dialogues against real sessions on both real stores, with the `entitled` "
               "specification evaluated on the implementation's own replies and store contents as the oracle")
@@ -15,7 +15,7 @@ LEVEL_NOTE = ("Coq kernel; extraction (ExtrOcamlBasic); the MAIL argument patter
               "interpreted by Base/Regex.v), NewRecipient/ParseOrigin are computed by the address model (C04) and the policy predicates by "
               "the policy model (C05) - all cross-checked against the real functions on every case; the remaining oracles are net.ParseIP "
               "and enmime's header decoding; store faults are outside the model; "
-              "TLS disabled; no extension installed (C17 covers hooks)")
+              "STARTTLS is inside the session model (delivery_exact covers sessions that upgrade; C03), the TLS record layer is not; no extension installed (C17 covers hooks)")
 DESIGN_REF = "DESIGN.md §4 C01"
 RULE = ("dialogues drawn from a grammar: greeting, 1-4 transactions with valid/rejected/malformed/duplicate/+ext/mixed-case "
         "recipients, RSET/EHLO/garbage/AUTH interleaved, 3 naming modes x random accept/store/origin policies x mem/file store; "
